@@ -3,18 +3,24 @@
 From Coq Require Import List ZArith NArith Bool String.
 From GrolGen Require Import Gen_Consts.
 From GrolModel Require Import Ast Lexer Parser Printer AstWf Frontend.
-From GrolProofs Require Import Parser_proofs Linemode_sim.
+From GrolProofs Require Import Parser_proofs Linemode_sim Linemode_lex.
 Import ListNotations.
 
 Definition no_numbers : numconv := mkConv (fun _ => None) (fun _ => None).
 Definition src (s : string) : bytes := bytes_of_string s.
 
-(* (1) For a complete program line mode yields the same tree as file mode.  Stated on the model as:
-   whenever the line-mode parse is clean, the file-mode parse is clean with the same tree. *)
-Definition C15_linemode_same_tree : Prop :=
-  forall conv s r, front_parse conv true s = POk r -> clean r = true ->
-    exists r', front_parse conv false s = POk r' /\ clean r' = true /\
-               node_eqb (NStmts (pr_tree r)) (NStmts (pr_tree r')) = true.
+(* (1) For a complete program line mode yields the same tree as file mode.  PROVED on the model of the
+   whole front end (lexer, parser) for every source text and number oracle: whenever the line-mode parse is
+   clean (no error, no continuation) and line mode leaves no string open, the file-mode parse is clean
+   with the same tree ([fnode] renames the type of end-marker tokens inside the tree: a clean tree has
+   none, which the harness checks by comparing both trees exactly on every complete program).
+   The hypothesis on open strings is what "complete" means for the lexer; the converse direction is false
+   by design (file mode accepts an unterminated block at end of input, line mode asks for more). *)
+Theorem C15_linemode_same_tree : forall conv s r,
+  unterminated true s = false ->
+  front_parse conv true s = POk r -> clean r = true ->
+  front_parse conv false s = POk (mkPres (map (option_map fnode) (pr_tree r)) [] false (pr_all_lexed r)).
+Proof. exact linemode_same_tree. Qed.
 
 Definition continues (s : string) : bool :=
   match front_parse no_numbers true (src s) with
@@ -57,9 +63,8 @@ Proof. vm_compute. reflexivity. Qed.
    the type of end-marker tokens inside the tree; a clean tree contains none, which the harness checks by
    comparing the trees exactly), no error, no continuation.  The converse is false by design: file mode
    accepts an unterminated block at end of input, line mode asks for more.
-   The remaining step of C15_linemode_same_tree - the two lexer modes produce the same tokens up to the
-   end marker when no string is left open - is checked per run (token streams of both modes are compared
-   by C16 and the trees of both modes by this check), not proved. *)
+   The lexer half (Linemode_lex.v: the two lexer modes produce the same tokens up to the end marker when no
+   string is left open) composes with it into C15_linemode_same_tree above. *)
 Theorem C15_linemode_parse_is_filemode_parse : forall conv fuel toks r,
   parse_program conv fuel token_EOL toks = POk r -> clean_result r = true ->
   parse_program conv fuel token_EOF (map fp toks)
@@ -72,5 +77,6 @@ Example C15_clean_linemode_example :
 b); f = (a,b) => a+b") with POk r => clean r | _ => false end = true.
 Proof. vm_compute. reflexivity. Qed.
 
+Print Assumptions C15_linemode_same_tree.
 Print Assumptions C15_linemode_parse_is_filemode_parse.
 Print Assumptions C15_open_prefixes_continue.
